@@ -33,6 +33,9 @@ NAMES = ['A', 'B', 'C', 'D', 'E', 'F', 'G', 'H', 'I']
 # hand-made graphs that run first: hairpins on chain ends traversed forwards and in reverse, a cycle with a closing link,
 # two chains sharing a junction, members with several dependants
 CORPUS = [
+    # overlaps whose first operation is not M: every CIGAR letter of GFA1 opens an overlap of a chain
+    ['S\tA\tAACCGG', 'S\tB\tCGGTTA', 'S\tC\tTTACC', 'S\tD\tACCAA', 'L\tA\t+\tB\t+\t3=', 'L\tB\t+\tC\t+\t1X2=', 'L\tC\t+\tD\t+\t1I2M1D'],
+    ['S\tA\tAACCGG', 'S\tB\tCGGTTA', 'S\tC\tTTACC', 'L\tB\t-\tA\t-\t1D2=1I', 'L\tC\t-\tB\t-\t1S2M', 'L\tC\t+\tC\t-\t2=1X'],
     # ambiguity codes in members traversed in reverse: S and W are their own complements, R/Y, K/M, B/V, D/H swap
     ['S\tA\tASWRK', 'S\tB\tBDNsw', 'S\tC\tMYVHC', 'L\tB\t-\tA\t-\t1M', 'L\tB\t+\tC\t-\t*'],
     # members with and without sequence in one chain (F78): the merged segment has no sequence
